@@ -316,8 +316,10 @@ func runSST(args []string) error {
 type dmgCase struct {
 	Writes []sstWrite `json:"writes"`
 	DComp  int        `json:"dcomp"`
+	IComp  int        `json:"icomp"` // index compression (default of the writer when 0 is not wanted: pass -1)
 	Step   int        `json:"step"`  // byte offsets visited: every Step-th (1 = all)
 	Kinds  []string   `json:"kinds"` // byte | trunc | swap
+	Tail   int        `json:"tail"`  // > 0 (big tables): damage only the last Tail bytes; Get only the first 2 and last 12 keys, range scan over the last 12
 }
 
 type dmgIn struct {
@@ -376,8 +378,12 @@ func runSSTDamage(args []string) error {
 	for ci, c := range in.Cases {
 		dir := filepath.Join(in.Dir, fmt.Sprintf("d%d", ci))
 		os.MkdirAll(dir, 0o700)
-		w, err := sstables.NewSSTableStreamWriter(sstables.WriteBasePath(dir), sstables.WithKeyComparator(cmp), sstables.DataCompressionType(c.DComp),
-			sstables.WriteBufferSizeBytes(4096))
+		dwopts := []sstables.WriterOption{sstables.WriteBasePath(dir), sstables.WithKeyComparator(cmp), sstables.DataCompressionType(c.DComp),
+			sstables.WriteBufferSizeBytes(4096)}
+		if c.IComp >= 0 {
+			dwopts = append(dwopts, sstables.IndexCompressionType(c.IComp))
+		}
+		w, err := sstables.NewSSTableStreamWriter(dwopts...)
 		if err != nil {
 			return err
 		}
@@ -442,7 +448,7 @@ func runSSTDamage(args []string) error {
 				case "disk":
 					ropts = append(ropts, sstables.ReadIndexLoader(&sstables.DiskIndexLoader{}))
 				}
-				ev := M{"t": "dmg", "kind": kind, "off": off, "val": val, "mode": mode, "loader": loader, "dcomp": c.DComp, "open": "ok", "gets": []string{}, "scan": [][]any{}, "scanend": "ok",
+				ev := M{"t": "dmg", "kind": kind, "off": off, "val": val, "mode": mode, "loader": loader, "dcomp": c.DComp, "open": "ok", "gets": []string{}, "gk": []int{}, "scan": [][]any{}, "scanend": "ok",
 					"range": [][]any{}, "rangeend": "ok"}
 				func() {
 					defer func() {
@@ -453,11 +459,17 @@ func runSSTDamage(args []string) error {
 					rd, err := sstables.NewSSTableReader(ropts...)
 					if err != nil {
 						ev["open"] = "err"
+						ev["operr"] = err.Error()
 						return
 					}
 					defer rd.Close()
 					gets := []string{}
-					for _, k := range wkeys {
+					gk := []int{}
+					for wi, k := range wkeys {
+						if c.Tail > 0 && wi >= 2 && wi < len(wkeys)-12 {
+							continue
+						}
+						gk = append(gk, wi+1)
 						v, err := rd.Get(keys[k])
 						if err != nil {
 							gets = append(gets, "err")
@@ -466,6 +478,7 @@ func runSSTDamage(args []string) error {
 						}
 					}
 					ev["gets"] = gets
+					ev["gk"] = gk
 					drainTo := func(it sstables.SSTableIteratorI, err error, outKey, endKey string) {
 						out := [][]any{}
 						if err != nil {
@@ -490,6 +503,15 @@ func runSSTDamage(args []string) error {
 						}
 						ev[outKey] = out
 					}
+					if c.Tail > 0 {
+						lo := len(wkeys) - 12
+						if lo < 0 {
+							lo = 0
+						}
+						it, err := rd.ScanRange(keys[wkeys[lo]], keys[wkeys[len(wkeys)-1]])
+						drainTo(it, err, "range", "rangeend")
+						return
+					}
 					it, err := rd.Scan()
 					drainTo(it, err, "scan", "scanend")
 					if len(wkeys) > 0 {
@@ -507,8 +529,16 @@ func runSSTDamage(args []string) error {
 		for _, kind := range c.Kinds {
 			switch kind {
 			case "byte":
-				for off := 0; off < len(data); off += step {
-					for _, v := range []byte{data[off] ^ 1, data[off] ^ 2, data[off] ^ 4, data[off] ^ 8, data[off] ^ 16, data[off] ^ 32, data[off] ^ 64, data[off] ^ 128, 0x00, 0xff, 0x91, 0x8d, 0x4c} {
+				first := 0
+				if c.Tail > 0 && len(data) > c.Tail {
+					first = len(data) - c.Tail
+				}
+				for off := first; off < len(data); off += step {
+					vals := []byte{data[off] ^ 1, data[off] ^ 2, data[off] ^ 4, data[off] ^ 8, data[off] ^ 16, data[off] ^ 32, data[off] ^ 64, data[off] ^ 128, 0x00, 0xff, 0x91, 0x8d, 0x4c}
+					if c.Tail > 0 {
+						vals = []byte{data[off] ^ 1, data[off] ^ 128, 0x00, 0xff, 0x91}
+					}
+					for _, v := range vals {
 						if v == data[off] {
 							continue
 						}
@@ -518,7 +548,11 @@ func runSSTDamage(args []string) error {
 					}
 				}
 			case "trunc":
-				for n := 0; n < len(data); n += step {
+				first := 0
+				if c.Tail > 0 && len(data) > c.Tail {
+					first = len(data) - c.Tail
+				}
+				for n := first; n < len(data); n += step {
 					probe("trunc", n, 0, data[:n])
 				}
 			case "swap":
